@@ -77,13 +77,17 @@ def run_property(prop, tier, A, seed):
                       f"confirmed by hand and at least {need} are required — the rule lost its anchors (vacuous pass refused)")
                 return 2
         selftest = None
-        if tier == "quick" and os.environ.get("HSA_NO_CANARY") != "1":
+        if new_now:
+            # the tree under analysis violates the property: that is the verdict.  The self-test compares variants / twins of
+            # a tree on which the property holds (every twin of a violating tree would "alarm"), so it is not run.
+            selftest = {"skipped": "violation reported on the analysed tree; the self-test presupposes a tree on which the property holds"}
+        elif tier == "quick" and os.environ.get("HSA_NO_CANARY") != "1":
             from .selftest import run_canary
             selftest = run_canary(prop, A)
             if selftest.get("missed"):
                 print(f"ANALYSIS-ERROR property={prop} self-test: {selftest['missed'][0]}")
                 return 2
-        if tier == "thorough":
+        elif tier == "thorough":
             from .selftest import run_selftest
             selftest = run_selftest(prop, A)
             if selftest.get("missed"):
